@@ -215,6 +215,77 @@ class Unit:
                         info['mutants'].append((bidx, d.arg.split()[0], blk.path))
                 self._emit_block(blk, out, info, mu)
                 bidx += 1
+        # vacuity probes for the template's own lemmas (proof fns with a `requires`)
+        raw_text = '\n'.join(p[2] for p in self.parts if p[0] == 'raw')
+        try:
+            rt, _ = lex(raw_text, 'unit', 1)
+        except Exception:
+            rt = []
+        probes = []
+        i = 0
+        while i + 2 < len(rt):
+            if rt[i].text == 'proof' and rt[i + 1].text == 'fn' and rt[i + 2].kind == 'ident':
+                name = rt[i + 2].text
+                j = i + 3
+                gen = []
+                if rt[j].text == '<':
+                    d = 0
+                    k = j
+                    while k < len(rt):
+                        if rt[k].text == '<':
+                            d += 1
+                        elif rt[k].text == '>':
+                            d -= 1
+                            if d == 0:
+                                break
+                        k += 1
+                    gen = rt[j:k + 1]
+                    j = k + 1
+                if j < len(rt) and rt[j].text == '(':
+                    rp = match_close(rt, j)
+                    params = rt[j:rp + 1]
+                    k = rp + 1
+                    req = None
+                    while k < len(rt) and rt[k].text != '{':
+                        if rt[k].kind == 'ident' and rt[k].text == 'requires':
+                            req = k
+                        if rt[k].kind == 'ident' and rt[k].text in ('ensures', 'decreases') and req is not None:
+                            break
+                        if rt[k].text in OPEN:
+                            k = match_close(rt, k)
+                        k += 1
+                    if req is not None and not name.startswith('vac__'):
+                        reqtoks = rt[req + 1:k]
+                        probes.append((name, ' '.join(render(gen).split()), ' '.join(render(params).split()), ' '.join(render(reqtoks).split())))
+                    i = k
+                    continue
+            i += 1
+        if probes and 'novaclemmas' not in self.header:
+            # emit inside the verus! block: before its closing brace (the last `}` before `fn main`)
+            text = out.text()
+            idx = text.rfind('}', 0, text.rfind('fn main'))
+            if idx > 0:
+                head = text[:idx]
+                tail = text[idx:]
+                line = head.count('\n') + 1
+                add = []
+                for (name, gen, params, req) in probes:
+                    vname = 'vac__lemma__' + name
+                    body = 'proof fn %s%s%s\n    requires %s\n    ensures false\n{}\n' % (vname, gen, params, req.rstrip(',') + ',')
+                    start = line
+                    line += body.count('\n')
+                    info['vac'].append({'fn': name, 'probe': vname, 'out_lines': (start, line - 1)})
+                    add.append(body)
+                newtext = head + ''.join(add) + tail
+                lm = dict(out.linemap)
+                shift = sum(a.count('\n') for a in add)
+                base = head.count('\n') + 1
+                lm2 = {}
+                for k2, v in lm.items():
+                    lm2[k2 if k2 < base else k2 + shift] = v
+                for l in range(base, base + shift):
+                    lm2[l] = ('unit', 0)
+                return Assembled(newtext, lm2, info, self)
         return Assembled(out.text(), out.linemap, info, self)
 
     def _emit_block(self, blk, out, info, mutant_name):
